@@ -38,6 +38,7 @@ type c12World struct {
 	sg           *lastgersync.LastGERSync
 	mainLeaves   []common.Hash
 	l2Leaves     []common.Hash
+	lax          bool        // verifications are not always followed by an L1 info update
 	initialRoot  common.Hash // mainnet / rollup exit root the GER contract reports before the first deposit / verification
 	mainRoots    []common.Hash
 	l2Roots      []common.Hash
@@ -142,6 +143,9 @@ func c12Gen(rt *rapid.T, w *c12World) error {
 	if rapid.IntRange(0, 2).Draw(rt, "initialExitRoots") == 0 {
 		w.initialRoot = ref.EmptyRoot
 	}
+	// the deployed rollup manager pushes a new global exit root right after every verification; a third of the worlds do
+	// not rely on that (a verification's rollup exit root may then be on no L1 info leaf)
+	w.lax = rapid.IntRange(0, 2).Draw(rt, "verificationsWithoutInfoUpdate") == 0
 	steps := rapid.IntRange(3, 40).Draw(rt, "steps")
 	// one deposit in five repeats the fields of an earlier one on the same chain (the leaf does not cover the deposit count)
 	var prevL1, prevL2 []bridgesync.Bridge
@@ -185,7 +189,9 @@ func c12Gen(rt *rapid.T, w *c12World) error {
 			w.pendingL1 = append(w.pendingL1, l1infotreesync.Event{VerifyBatches: &l1infotreesync.VerifyBatches{BlockPosition: w.pos, RollupID: jNetID, NumBatch: uint64(cnt), StateRoot: common.Hash{3}, ExitRoot: ler, Aggregator: common.Address{4}}})
 			w.pos++
 			w.shape += "V"
-			w.addInfo() // the rollup manager updates the GER on verification
+			if !w.lax || rapid.IntRange(0, 2).Draw(rt, "infoAfterVerification") > 0 {
+				w.addInfo() // the rollup manager updates the GER on verification
+			}
 		case "verifyForeign":
 			id := uint32(rapid.IntRange(2, 4).Draw(rt, "foreignID"))
 			h := genHash.Draw(rt, "foreignLER")
@@ -193,7 +199,9 @@ func c12Gen(rt *rapid.T, w *c12World) error {
 			w.pendingL1 = append(w.pendingL1, l1infotreesync.Event{VerifyBatches: &l1infotreesync.VerifyBatches{BlockPosition: w.pos, RollupID: id, NumBatch: 1, StateRoot: common.Hash{3}, ExitRoot: h, Aggregator: common.Address{4}}})
 			w.pos++
 			w.shape += "F"
-			w.addInfo()
+			if !w.lax || rapid.IntRange(0, 2).Draw(rt, "infoAfterVerification") > 0 {
+				w.addInfo()
+			}
 		case "info":
 			w.addInfo()
 		case "endL1Block":
